@@ -1554,12 +1554,14 @@ func (v *VM) execute(ctx *Context, op opcode.Opcode, parameter []byte) (err erro
 			index := t.Index(key.Item())
 			// No error on missing key.
 			if index >= 0 {
-				if t.IsReferenced() {
-					elems := t.Value().([]stackitem.MapElement)
-					v.refs.Remove(elems[index].Key)
-					v.refs.Remove(elems[index].Value)
-				}
+				// Take the element out first: removing the value can recurse back into
+				// this map (cyclic structure) and must not meet the entry again.
+				elem := t.Value().([]stackitem.MapElement)[index]
 				t.Drop(index)
+				if t.IsReferenced() {
+					v.refs.Remove(elem.Key)
+					v.refs.Remove(elem.Value)
+				}
 			}
 		default:
 			panic("REMOVE: invalid type")
